@@ -69,7 +69,8 @@ fail_lines = [l for l in out1.splitlines() if re.search(r"panicked at|^test .* F
 res["demo_failure_excerpt"] = fail_lines
 print(json.dumps(res, indent=1))
 if ok:
-    d = f"/verif/seeded/{prop}{var}"
+    tag = sys.argv[sys.argv.index("--tag") + 1] if "--tag" in sys.argv else ""
+    d = f"/verif/seeded/{prop}{tag}{var}"
     os.makedirs(d, exist_ok=True)
     shutil.copy(f"{src}/patch.diff", f"{d}/patch.diff")
     shutil.copy(f"{src}/demo.rs", f"{d}/demo.rs")
@@ -79,7 +80,7 @@ if ok:
     mm = re.search(r"(?is)(needs?|trigger|what (is|it) needs?|manifest)[^\n]*\n(.{0,900})", notes)
     if mm:
         needs = mm.group(0)[:900]
-    meta = {"id": f"{prop}{var}", "breaks_property": prop, "needs_to_manifest": needs,
+    meta = {"id": f"{prop}{tag}{var}", "breaks_property": prop, "needs_to_manifest": needs,
             "demo_dest": dest, "demo_cmd": " ".join(demo_cmd), "confirmed_by_me": res["what_i_ran"],
             "demo_failure_excerpt": fail_lines, "base_commit": sh("git rev-parse HEAD").stdout.strip(),
             "detected_by": None}
